@@ -6,3 +6,5 @@ open UtilModel UtilModel.Routine
 #print axioms UtilModel.Routine.superseded_cancelled
 #print axioms UtilModel.Routine.quiescent_survivor
 #print axioms UtilModel.Routine.survivor_unique
+#print axioms UtilModel.Routine.step_k4
+#print axioms UtilModel.Routine.survivor_state
